@@ -216,7 +216,7 @@ def render_model(case):
     return data
 
 
-def run_filter(ctx, tool, case, tag="c"):
+def run_filter(ctx, tool, case, tag="c", threads=1, batch=None):
     d = os.path.join(ctx.scratch, tag)
     os.makedirs(d, exist_ok=True)
     for f in os.listdir(d):
@@ -224,7 +224,7 @@ def run_filter(ctx, tool, case, tag="c"):
     mpath = os.path.join(d, "model")
     open(mpath, "wb").write(render_model(case))
     head = ["timeout", "20", tool, case["mode"]] + (["context"] if case["ctx"] else []) + (["phrase"] if case["phrase"] else []) + \
-        ["arpa" if case["fmt"] == "arpa" else "raw", "threads:1"]
+        ["arpa" if case["fmt"] == "arpa" else "raw", "threads:%d" % threads] + (["batch_size:%d" % batch] if batch else [])
     if case.get("vocab_as_file"):
         # the other calling convention: vocabulary from a file, model on stdin
         vpath = os.path.join(d, "vocab")
@@ -367,6 +367,57 @@ def phrase_graph_line(case):
     return "P %d %s%s" % (case["ctx"], hexs(case["vocab"]), "".join(" " + hexs(g) for g in grams))
 
 
+def gen_medium_case(rng):
+    """a model with many more n-grams of one order than a (small) batch holds, so that with threads >= 2 several
+    batches are inside the filter at the same moment"""
+    nw = rng.choice([8, 20, 40])
+    W = [b"w%d" % i for i in range(nw)] + [b"<s>", b"</s>", b"<unk>"]
+    mode = rng.choice(["union", "multiple", "single", "union", "multiple"])
+    phrase = mode != "single" and rng.chance(1, 4)
+    nsent = rng.choice([1, 3, 8, 15])
+    sep = b"\t" if phrase else b" "
+    vocab = b"".join(sep.join(b" ".join(rng.choice(W[:nw]) for _ in range(rng.range(1, 3 if phrase else 1)))
+                              for _ in range(rng.range(2, 10))) + b"\n" for _ in range(nsent))
+    case = {"mode": mode, "ctx": rng.chance(2, 3), "phrase": phrase, "fmt": rng.choice(["raw", "arpa"]), "vocab": vocab,
+            "vocab_as_file": rng.chance(1, 4)}
+    total = rng.choice([300, 1000, 2500])
+    if case["fmt"] == "raw":
+        case["sections"] = [[b" ".join(rng.choice(W) for _ in range(rng.range(1, 4))) + b"\t%d" % rng.range(1, 99) for _ in range(total)]]
+        case["no_final_newline"] = False
+    else:
+        secs = []
+        for k in range(1, rng.range(2, 4) + 1):
+            n = rng.choice([0, 1, total // 3, total // 2]) if k > 1 else total // 3
+            secs.append([b"-1.5\t" + b" ".join(rng.choice(W) for _ in range(k)) + (b"\t-0.25" if rng.chance(1, 2) else b"") for _ in range(n)])
+        case["sections"] = secs
+    return case
+
+
+def thread_settings(rng, case):
+    """(threads, batch_size) pairs: batches much smaller than a section, equal to it, one off, and the default"""
+    biggest = max([len(x) for x in case["sections"]] + [1])
+    pool = [1, 2, 3, 7, 10, 50, 200, biggest, biggest + 1, max(1, biggest - 1), max(1, biggest // 2)]
+    return [(rng.choice([2, 2, 3, 4, 8]), rng.choice(pool)) for _ in range(2)] + ([(rng.choice([2, 4]), None)] if rng.chance(1, 4) else [])
+
+
+def check_threaded(ctx, tool, case, rc1, files1, settings):
+    """the same input with threads >= 2: same status, same bytes as threads:1 (whose files the oracle has judged)"""
+    for th, b in settings:
+        rc, files, err = run_filter(ctx, tool, case, tag="t", threads=th, batch=b)
+        if rc == 124:
+            return (th, b), "threads:%d batch_size:%s does not terminate (timeout 20 s)" % (th, b)
+        if rc != rc1:
+            return (th, b), "threads:%d batch_size:%s exits with status %d (threads:1: %d): %s" % (th, b, rc, rc1, err.strip().split("\n")[-1][:160])
+        if files != files1:
+            j = next((i for i in range(max(len(files), len(files1))) if i >= len(files) or i >= len(files1) or files[i] != files1[i]), 0)
+            a = files1[j].split(b"\n") if j < len(files1) else []
+            c = files[j].split(b"\n") if j < len(files) else []
+            k = next((i for i in range(max(len(a), len(c))) if i >= len(a) or i >= len(c) or a[i] != c[i]), 0)
+            return (th, b), ("threads:%d batch_size:%s writes a different output %d (%d files vs %d): first difference at line %d: %r vs %r with threads:1"
+                             % (th, b, j, len(files), len(files1), k + 1, c[k] if k < len(c) else None, a[k] if k < len(a) else None))
+    return None, None
+
+
 def gen_sets(rng):
     k = rng.choice([1, 1, 2, 2, 3, 4, 6])
     univ = rng.choice([3, 6, 12, 40])
@@ -471,6 +522,10 @@ def run_query_case(ctx, tools, qc):
     for m in (arpa, filt):
         rc, out, err = vlib.sh(["timeout", "30", tools["query"], "-v", "word", "-v", "sentence", m], input=text, timeout=40, binary=True)
         if rc != 0:
+            if m == arpa:
+                # the unfiltered lmplz model itself is not loadable (e.g. a -inf back-off from a degenerate corpus): no
+                # statement about filtering can be tested on it (the loadability of lmplz output is property C06)
+                return ("skip", "query rejects the original model: %s" % err[-200:].decode("utf-8", "replace"))
             return ("fail", "query on %s exited %d: %s" % (os.path.basename(m), rc, err[-300:].decode("utf-8", "replace")))
         res.append(strip_ids(out).split(b"\n"))
     a, b = res
@@ -504,6 +559,10 @@ def run(ctx):
     ctx.count("corpus_cases", len(cases))
     cases += [gen_case(rng) for _ in range(ctx.pick(1500, 12000))]
     cases += [gen_exhaustive_phrase_case(rng) for _ in range(ctx.pick(60, 1000))]
+    medium = [gen_medium_case(rng) for _ in range(ctx.pick(16, 200))]
+    n_small = len(cases)
+    cases += medium
+    threaded_runs = 0
     impl_ans = []
     nontrivial = set()
     kinds = {}
@@ -515,6 +574,13 @@ def run(ctx):
         kinds[k] = kinds.get(k, 0) + 1
         if msg:
             spec_fail.append(("filter", case, impl_ans[-1], msg))
+        elif i >= n_small or rng.chance(1, 6):
+            # the thread / batch options must not change what is written (every medium case, a sixth of the small ones)
+            settings = thread_settings(rng, case)
+            threaded_runs += len(settings)
+            st, tmsg = check_threaded(ctx, tools["filter"], case, rc, files, settings)
+            if tmsg:
+                spec_fail.append(("threads", case, st, tmsg))
         total = sum(len(s) for s in case["sections"])
         if rc == 0 and files and case["mode"] != "copy":
             keptn = [f.count(b"\t") if case["fmt"] == "arpa" else f.count(b"\n") for f in files]
@@ -561,6 +627,8 @@ def run(ctx):
                             "bin/query on both; non-trivial when the filter removed lines.  Intersection cases: 1-6 sorted sets over a small universe.")
     ctx.coverage["case_kinds"] = kinds
     ctx.coverage["intersection_cases"] = len(set_cases)
+    ctx.coverage["medium_cases"] = len(medium)
+    ctx.coverage["threaded_runs_compared_with_threads1"] = threaded_runs
     ctx.coverage["query_cases_ok"] = qok
     ctx.coverage["traces_validated_against_impl"] = len(set_cases) + len(cases) - len(mismatches)
     for c, a in list(zip(cases, impl_ans))[:3]:
@@ -577,6 +645,9 @@ def run(ctx):
         elif kind == "filter":
             sig = "spec:filter:%s%s%s:%s" % (c["mode"], ":context" if c["ctx"] else "", ":phrase" if c["phrase"] else "", c["fmt"])
             ctx.report(sig, msg, {"kind": "filter", "case": dump(c), "impl_output": o[:2000]})
+        elif kind == "threads":
+            sig = "spec:filter:threads>1:%s%s%s:%s" % (c["mode"], ":context" if c["ctx"] else "", ":phrase" if c["phrase"] else "", c["fmt"])
+            ctx.report(sig, msg, {"kind": "threads", "case": dump(c), "threads": o[0], "batch_size": o[1]})
         else:
             ctx.report("spec:query-equivalence", msg, {"kind": "query", "case": c})
     if not spec_fail:
@@ -608,6 +679,19 @@ def replay(ctx, obj):
         msg = oracle(case, rc, files)
         print("case:", model_line(case)[:500], "\nrc:", rc, "\nfiles:", [f[:300] for f in files], "\noracle:", msg or "ok")
         return 1 if msg else 0
+    if kind == "threads":
+        case = undump(r["case"])
+        tool = vlib.tool("filter")
+        rc, files, err = run_filter(ctx, tool, case)
+        msg = oracle(case, rc, files)
+        bad = 0
+        for rep in range(5):      # a data race does not show on every run
+            st, tmsg = check_threaded(ctx, tool, case, rc, files, [(r["threads"], r["batch_size"])])
+            if tmsg:
+                bad += 1
+                print(tmsg)
+        print("threads:1 oracle:", msg or "ok", "| threaded runs differing from threads:1: %d of 5" % bad)
+        return 1 if (msg or bad) else 0
     if kind == "query":
         c = r["case"]
         qc = {k: (bytes.fromhex(v) if k in ("corpus", "vocab") else [bytes.fromhex(x) for x in v] if k == "sentences" else v) for k, v in c.items()}
